@@ -84,12 +84,111 @@ Ltac run :=
                 | rewrite pu_enc by (cbn; lia)
                 | rewrite pu1_byte by lia ]).
 
+
+(* ---------- topics, users, tokens, flush, client ---------- *)
+Lemma name3_name s : wf_name3 s -> wf_name s.
+Proof. intros [L A]. split; [lia | exact A]. Qed.
+Lemma enc_name_len3 s : wf_name3 s -> 4 <= nlen (enc_name s).
+Proof. intros [L _]. unfold enc_name. rewrite nlen_app. unfold nlen at 1; cbn. lia. Qed.
+Lemma ok_lt c : comp_ok c = true -> c < 256.
+Proof. unfold comp_ok. lia. Qed.
+Lemma postr32_enc o r : wf_ostr o -> postr32 (enc_ostr32 o ++ r) = Some (o, r).
+Proof.
+  intros H. unfold postr32, enc_ostr32, bind, ret, pfail. destruct o as [s|]; cbn [wf_ostr] in H.
+  - destruct H as [L A]. rewrite <- app_assoc. rewrite pu_enc by (cbn; lia). destruct (N.eqb_spec (nlen s) 0); [lia|].
+    rewrite (pbytes_app (nlen s) s r) by reflexivity. rewrite A. reflexivity.
+  - rewrite pu_enc by (cbn; lia). reflexivity.
+Qed.
+Lemma opt8_val r : wf_opt8 r -> (match r with Some v => v | None => 0 end) < 256 /\
+  (if (match r with Some v => v | None => 0 end) =? 0 then None else Some (match r with Some v => v | None => 0 end)) = r.
+Proof. destruct r as [v|]; cbn [wf_opt8]; intros H; [split; [lia|]; destruct (N.eqb_spec v 0); [lia | reflexivity] | split; [lia | reflexivity]]. Qed.
+
+Ltac guard_ok :=
+  match goal with |- (if ?b then _ else _) = _ => let E := fresh in destruct b eqn:E;
+    [exfalso; apply N.ltb_lt in E; revert E; repeat rewrite nlen_app; rewrite ?enc_opt_len, ?le_len; unfold bool_byte, enc_opt8;
+     repeat match goal with |- context [nlen [?x; ?y]] => change (nlen [x; y]) with 2 end;
+     repeat match goal with |- context [nlen [?x]] => change (nlen [x]) with 1 end; cbn [N.of_nat]; intros E; lia | clear E] end.
+
+Lemma rt_create_topic s i n c e m r nm : wf_req (QCreateTopic s i n c e m r nm) ->
+  dec_req 302 (enc_req (QCreateTopic s i n c e m r nm)) = Some (QCreateTopic s i n c e m r nm).
+Proof.
+  cbn [wf_req enc_req]. intros (H1 & H2 & H3 & H4 & H5 & H6 & H7 & H8). unfold dec_req; cbn [guard].
+  pose proof (enc_ident_len s H1). pose proof (enc_name_len nm H8). guard_ok.
+  destruct (opt8_val r H7) as [R1 R2]. pose proof (ok_lt c H4).
+  rewrite <- (app_nil_r (enc_name nm)). unfold enc_opt8. run. rewrite H4, R2. reflexivity.
+Qed.
+Lemma rt_update_topic s t c e m r nm : wf_req (QUpdateTopic s t c e m r nm) ->
+  dec_req 304 (enc_req (QUpdateTopic s t c e m r nm)) = Some (QUpdateTopic s t c e m r nm).
+Proof.
+  cbn [wf_req enc_req]. intros (H1 & H2 & H4 & H5 & H6 & H7 & H8). unfold dec_req; cbn [guard].
+  pose proof (enc_ident_len s H1). pose proof (enc_ident_len t H2). pose proof (enc_name_len nm H8). guard_ok.
+  destruct (opt8_val r H7) as [R1 R2]. pose proof (ok_lt c H4).
+  rewrite <- (app_nil_r (enc_name nm)). unfold enc_opt8. run. rewrite H4, R2. reflexivity.
+Qed.
+Lemma rt_create_user u p st : wf_req (QCreateUser u p st) -> dec_req 33 (enc_req (QCreateUser u p st)) = Some (QCreateUser u p st).
+Proof.
+  cbn [wf_req enc_req]. intros (H1 & H2 & H3). unfold dec_req; cbn [guard].
+  pose proof (enc_name_len3 u H1). pose proof (enc_name_len3 p H2). guard_ok. apply name3_name in H1, H2. pose proof (ok_lt st H3).
+  run. rewrite H3. reflexivity.
+Qed.
+Lemma rt_update_user i u st : wf_req (QUpdateUser i u st) -> dec_req 35 (enc_req (QUpdateUser i u st)) = Some (QUpdateUser i u st).
+Proof.
+  cbn [wf_req enc_req]. intros (H1 & H2 & H3). unfold dec_req; cbn [guard]. pose proof (enc_ident_len i H1).
+  destruct u as [un|]; destruct st as [sv|].
+  all: try pose proof (enc_name_len un H2); try pose proof (ok_lt sv H3).
+  all: guard_ok.
+  all: rewrite <- ?app_assoc; cbn [app]; run.
+  all: change (1 <? 1) with false; change (1 <? 0) with false; change (1 =? 1) with true; change (0 =? 1) with false; cbn iota beta.
+  all: run.
+  all: change (1 <? 1) with false; change (1 <? 0) with false; change (1 =? 1) with true; change (0 =? 1) with false; cbn iota beta.
+  all: run; rewrite ?H3; reflexivity.
+Qed.
+Lemma rt_change_password i c n : wf_req (QChangePassword i c n) -> dec_req 37 (enc_req (QChangePassword i c n)) = Some (QChangePassword i c n).
+Proof.
+  cbn [wf_req enc_req]. intros (H1 & H2 & H3). unfold dec_req; cbn [guard].
+  pose proof (enc_ident_len i H1). pose proof (enc_name_len3 c H2). pose proof (enc_name_len3 n H3). guard_ok. apply name3_name in H2, H3.
+  rewrite <- (app_nil_r (enc_name n)). run. reflexivity.
+Qed.
+Lemma rt_login_user u p v c : wf_req (QLoginUser u p v c) -> dec_req 38 (enc_req (QLoginUser u p v c)) = Some (QLoginUser u p v c).
+Proof.
+  cbn [wf_req enc_req]. intros (H1 & H2 & H3 & H4). unfold dec_req; cbn [guard].
+  pose proof (enc_name_len u H1). pose proof (enc_name_len p H2). guard_ok.
+  rewrite <- (app_nil_r (enc_ostr32 c)). run. rewrite (postr32_enc v _ H3), (postr32_enc c _ H4). reflexivity.
+Qed.
+Lemma rt_flush s t p f : wf_req (QFlush s t p f) -> dec_req 102 (enc_req (QFlush s t p f)) = Some (QFlush s t p f).
+Proof.
+  cbn [wf_req enc_req]. intros (H1 & H2 & H3). unfold dec_req; cbn [guard]. change (nlen _ <? 0) with false || replace (nlen (enc_ident s ++ enc_ident t ++ le_enc 4 p ++ bool_byte f) <? 0) with false by lia.
+  cbn iota. unfold bool_byte. rewrite <- (app_nil_r [n2b (if f then 1 else 0)]). run. destruct f; rewrite pu1_byte by lia; reflexivity.
+Qed.
+Lemma rt_get_client i : wf_req (QGetClient i) -> dec_req 21 (enc_req (QGetClient i)) = Some (QGetClient i).
+Proof.
+  cbn [wf_req enc_req]. intros H. unfold dec_req; cbn [guard]. rewrite le_len. change (N.of_nat 4 <? 4) with false. change (N.of_nat 4 =? 4) with true. cbn iota.
+  rewrite <- (app_nil_r (le_enc 4 i)). run. reflexivity.
+Qed.
+Lemma rt_create_pat n e : wf_req (QCreatePat n e) -> dec_req 42 (enc_req (QCreatePat n e)) = Some (QCreatePat n e).
+Proof.
+  cbn [wf_req enc_req]. intros (H1 & H2). unfold dec_req; cbn [guard]. pose proof (enc_name_len3 n H1). guard_ok. apply name3_name in H1.
+  rewrite <- (app_nil_r (le_enc 8 e)). run. reflexivity.
+Qed.
+Lemma rt_delete_pat n : wf_req (QDeletePat n) -> dec_req 43 (enc_req (QDeletePat n)) = Some (QDeletePat n).
+Proof.
+  cbn [wf_req enc_req]. intros H1. unfold dec_req; cbn [guard]. pose proof (enc_name_len3 n H1). guard_ok. apply name3_name in H1.
+  rewrite <- (app_nil_r (enc_name n)). run. reflexivity.
+Qed.
+Lemma rt_login_pat n : wf_req (QLoginPat n) -> dec_req 44 (enc_req (QLoginPat n)) = Some (QLoginPat n).
+Proof.
+  cbn [wf_req enc_req]. intros H1. unfold dec_req; cbn [guard]. pose proof (enc_name_len3 n H1). guard_ok. apply name3_name in H1.
+  rewrite <- (app_nil_r (enc_name n)). run. reflexivity.
+Qed.
+
 (* Every well-formed request the SDK encodes is decoded by the server's decoder for that command code to the same
    request - including the shortest possible encodings (one-character names everywhere). *)
 Lemma roundtrip q : wf_req q -> dec_req (code_of q) (enc_req q) = Some q.
 Proof.
-  rewrite <- (app_nil_r (enc_req q)).
-  destruct q; cbn [wf_req code_of enc_req]; intros H; unfold dec_req; cbn [guard].
+  destruct q; try (first [apply rt_create_topic | apply rt_update_topic | apply rt_create_user | apply rt_update_user | apply rt_change_password
+                          | apply rt_login_user | apply rt_flush | apply rt_get_client | apply rt_create_pat | apply rt_delete_pat | apply rt_login_pat]).
+  all: match goal with |- _ -> dec_req _ (enc_req ?q) = _ => rewrite <- (app_nil_r (enc_req q)) end.
+  all: cbn [wf_req code_of enc_req]; intros H; unfold dec_req; cbn [guard].
   all: repeat match goal with H : _ /\ _ |- _ => destruct H end.
   all: match goal with |- (if ?b then _ else _) = _ => let E := fresh in destruct b eqn:E;
          [exfalso; apply N.ltb_lt in E; revert E; lens | clear E] end.
